@@ -402,11 +402,11 @@ func ReplayManifestFile(fp *os.File, extMagic uint16, opt Options) (Manifest, in
 			return Manifest{}, 0, err
 		}
 		length := y.BytesToU32(lenCrcBuf[0:4])
-		// Sanity check to ensure we don't over-allocate memory.
-		if length > uint32(stat.Size()) {
-			return Manifest{}, 0, fmt.Errorf(
-				"Buffer length: %d greater than file size: %d. Manifest file might be corrupted",
-				length, stat.Size())
+		// Sanity check to ensure we don't over-allocate memory. A record that claims to be longer
+		// than the bytes left in the file cannot have been written completely, so it is a torn
+		// tail (like any other partially written record) and replay stops before it.
+		if int64(length) > stat.Size()-r.count {
+			break
 		}
 		var buf = make([]byte, length)
 		if _, err := io.ReadFull(&r, buf); err != nil {
